@@ -242,7 +242,7 @@ func init() {
 	register(&Spec{Prop: "C07",
 		Gen: func(t *rapid.T, th bool) *Case {
 			pf := &Profile{WQueueProb: 15, Kinds: allKinds, QKinds: allQKinds, MaxQueues: 2, Concs: []int{1, 2, 4, 8}, IDGenProb: 40, ErrsReader: 50, MinClients: 1, MaxClients: 3, MaxOps: scale(th, 8, 14),
-				Ops:     map[string]int{"add": 30, "addall": 10, "result": 25, "wait": 5, "gconsume": 10, "gwait": 4, "release": 4, "yield": 3},
+				Ops:     map[string]int{"add": 30, "addall": 10, "result": 25, "wait": 5, "gconsume": 10, "gwait": 4, "release": 4, "yield": 3, "close": 4},
 				MaxCtrl: 0, GatedProb: 25, Outs: []int{OutVal, OutVal, OutErr, OutPanicStr, OutPanicErr, OutPanicNil, OutPanicStruct}, MaxBatch: 5}
 			// one case in six is a "failure storm": every job fails, several at once, nobody reads Errs()
 			storm := rapid.IntRange(0, 5).Draw(t, "storm") == 0
@@ -348,7 +348,7 @@ func init() {
 		Gen: func(t *rapid.T, th bool) *Case {
 			pf := &Profile{Kinds: allKinds, QKinds: memQKinds, MaxQueues: 2, Concs: []int{1, 2, 3}, MinClients: 1, MaxClients: 2, MaxOps: scale(th, 8, 14),
 				Ops:     map[string]int{"add": 40, "addmany": 10, "release": 5, "yield": 5, "sleep": 3},
-				Ctrl:    map[string]int{"pause": 4, "pausewait": 8, "resume": 8, "stop": 4, "waitstop": 2, "restart": 4, "settle": 3},
+				Ctrl:    map[string]int{"pause": 4, "pausewait": 8, "resume": 8, "stop": 4, "waitstop": 2, "restart": 4, "settle": 3, "bind": 2},
 				MaxCtrl: scale(th, 6, 12), GatedProb: 25, MaxBatch: 4, Prios: []int{0, 1, 1, 2},
 				SchedKinds: []string{"dev", "pct", "pct", "pctl", "pctl", "rw"}}
 			return genProgram(t, "C09", pf, th)
@@ -421,7 +421,17 @@ func init() {
 			pf := &Profile{WQueueProb: 15, Kinds: allKinds, QKinds: memQKinds, MaxQueues: 1, Concs: []int{1, 2, 3}, MinClients: 2, MaxClients: 4, MaxOps: scale(th, 8, 14),
 				Ops:     map[string]int{"add": 30, "addall": 4, "status": 30, "wait": 12, "close": 4, "release": 3, "yield": 4, "snap": 4},
 				MaxCtrl: 0, GatedProb: 20, Outs: []int{OutVal, OutErr, OutPanicStr}, MaxBatch: 3}
-			return genProgram(t, "C16", pf, th)
+			c := genProgram(t, "C16", pf, th)
+			// one program in five has a configured context that is cancelled while jobs are queued or running
+			if rapid.IntRange(0, 4).Draw(t, "withctx") == 0 {
+				c.Cfg.Ctx = true
+				var ctrl []Op
+				for i := 0; i < rapid.IntRange(0, 3).Draw(t, "ctxyields"); i++ {
+					ctrl = append(ctrl, Op{Op: pick(t, "ctxpre", []string{"yield", "settle"})})
+				}
+				c.Clients[0] = append(ctrl, Op{Op: "cancelctx"})
+			}
+			return c
 		},
 		Oracles: []oracleFn{oC16},
 		Foreign: []oracleFn{oCrash("*"), oDeadlock("C03"), oLivelock("C03")},
